@@ -2,6 +2,7 @@ package c04
 
 import (
 	"encoding/hex"
+	"fmt"
 	"strings"
 	"unicode/utf8"
 
@@ -48,29 +49,39 @@ type attrMap struct {
 }
 
 type stats struct {
-	refusedFull     int // new key refused because the map was full
-	updateWhenFull  int // existing key overwritten while the map was full
-	updateExisting  int
-	invalidAttr     int // empty key or INVALID value passed to SetAttributes
-	attrLimitZero   int
-	truncated       int // strings cut by the value length limit
-	truncInvalid    int // ... whose input held invalid bytes
-	truncFFFD       int // ... whose input held a literal U+FFFD
-	invalidWithin   int // invalid string short enough to be left alone
-	afterEnd        int
-	evictedEvents   int
-	evictedLinks    int
-	eventCapBites   int
-	linkCapBites    int
-	errorEvents     int
-	nilErrors       int
-	linksIgnored    int // invalid context, no attributes, no tracestate
-	invalidLinkKept int
-	statusIgnored   int // lower-precedence SetStatus
-	statusSameCode  int // same code set again (overrides)
-	descOnNonError  int
-	secondEnd       int
-	distinctOffered map[string]struct{}
+	refusedFull      int // new key refused because the map was full
+	updateWhenFull   int // existing key overwritten while the map was full
+	updateExisting   int
+	invalidAttr      int // empty key or INVALID value passed to SetAttributes
+	attrLimitZero    int
+	truncated        int // strings cut by the value length limit
+	truncInvalid     int // ... whose input held invalid bytes
+	truncFFFD        int // ... whose input held a literal U+FFFD
+	invalidWithin    int // invalid string short enough to be left alone
+	afterEnd         int
+	evictedEvents    int
+	evictedLinks     int
+	eventCapBites    int
+	linkCapBites     int
+	errorEvents      int
+	nilErrors        int
+	linksIgnored     int // invalid context, no attributes, no tracestate
+	invalidLinkKept  int
+	statusIgnored    int // lower-precedence SetStatus
+	statusSameCode   int // same code set again (overrides)
+	descOnNonError   int
+	secondEnd        int
+	panicEvents      int // End ran as the deferred call of a panicking goroutine
+	panicEndAfterEnd int // ... on a span that had ended already
+	endInClosure     int
+	bytesAtLimit     int // a string of exactly limit bytes
+	runesAtLimit     int // more than limit bytes but exactly limit valid characters
+	truncWide        int // cut by a value length limit >= 31
+	bigAttrCall      int // SetAttributes with more than 12 key-values in one call
+	stackOff         int // WithStackTrace(false) spelled out
+	panicCapBites    int
+	panicEvicts      int // the panic event pushed an older event out / was refused by limit 0
+	distinctOffered  map[string]struct{}
 }
 
 func (a *attrMap) set(kvs []attribute.KeyValue, vlen int, st *stats) {
@@ -116,6 +127,15 @@ func noteTrunc(v attribute.Value, vlen int, st *stats) {
 		ss = v.AsStringSlice()
 	}
 	for _, s := range ss {
+		if vlen > 0 && len(s) == vlen {
+			st.bytesAtLimit++
+		}
+		if vlen > 0 && len(s) > vlen && utf8.RuneCountInString(cleanUTF8(s)) == vlen {
+			st.runesAtLimit++
+		}
+		if vlen >= 31 && refTruncate(vlen, s) != s {
+			st.truncWide++
+		}
 		if refTruncate(vlen, s) != s {
 			st.truncated++
 			if !utf8.ValidString(s) {
@@ -146,6 +166,12 @@ type mEvent struct {
 	errMsg string
 	errTyp string // substring the exception.type must contain
 	stack  bool
+	// anyMsg: the value is not a string or an error, the text of
+	// exception.message is not modelled.
+	anyMsg bool
+	// fromPanic: the event End adds when it runs as the deferred call of a
+	// panicking goroutine.
+	fromPanic bool
 }
 
 type mLink struct {
@@ -248,16 +274,25 @@ func (m *model) addEvent(e mEvent, total int) {
 	e.kept, e.dropped = capSplit(m.lim.PerEvent, total)
 	if e.dropped > 0 {
 		m.st.eventCapBites++
+		if e.fromPanic {
+			m.st.panicCapBites++
+		}
 	}
 	switch {
 	case m.lim.Events == 0:
 		m.droppedEvents++
 		m.st.evictedEvents++
+		if e.fromPanic {
+			m.st.panicEvicts++
+		}
 		return
 	case m.lim.Events > 0 && len(m.events) >= m.lim.Events:
 		m.events = append([]mEvent{}, m.events[1:]...)
 		m.droppedEvents++
 		m.st.evictedEvents++
+		if e.fromPanic {
+			m.st.panicEvicts++
+		}
 	}
 	m.events = append(m.events, e)
 }
@@ -273,16 +308,35 @@ func errTypeHint(kind int) string {
 	}
 }
 
+func panicTypeHint(kind int) string {
+	switch kind {
+	case 0:
+		return "string"
+	case 1, 2, 3:
+		return errTypeHint(kind)
+	case 4:
+		return "int"
+	default:
+		return "panicStruct"
+	}
+}
+
 func (m *model) apply(op Op, v variant) {
 	if m.ended {
 		m.st.afterEnd++
 		if op.Op == "end" {
 			m.st.secondEnd++
+			if op.Panic == 1 {
+				m.st.panicEndAfterEnd++
+			}
 		}
 		return
 	}
 	switch op.Op {
 	case "attrs":
+		if len(op.KVs) > 12 {
+			m.st.bigAttrCall++
+		}
 		m.attrs.set(vk.ToAttrs(op.KVs), m.lim.ValueLen, &m.st)
 	case "event":
 		offered := vk.ToAttrs(op.KVs)
@@ -298,6 +352,9 @@ func (m *model) apply(op Op, v variant) {
 			return
 		}
 		m.st.errorEvents++
+		if op.StackOff && !op.Stack {
+			m.st.stackOff++
+		}
 		offered := vk.ToAttrs(op.KVs)
 		total := len(offered) + 2
 		if op.Stack {
@@ -324,6 +381,26 @@ func (m *model) apply(op Op, v variant) {
 	case "name":
 		m.name = string(op.Text)
 	case "end":
+		if op.Panic == 1 {
+			// "If this method is called while panicking an error event is added
+			// to the Span before ending it": an event like any other, subject to
+			// the event FIFO and the per-event attribute cap, made of
+			// exception.type, exception.message and, with WithStackTrace(true),
+			// exception.stacktrace.
+			m.st.panicEvents++
+			total := 2
+			if op.Stack {
+				total++
+			}
+			m.addEvent(mEvent{name: "exception", isErr: true, fromPanic: true,
+				errMsg: string(op.Text), errTyp: panicTypeHint(op.PanicVal), anyMsg: op.PanicVal >= 4, stack: op.Stack}, total)
+		}
+		if op.Panic == 2 {
+			m.st.endInClosure++
+		}
+		if op.StackOff && !op.Stack {
+			m.st.stackOff++
+		}
 		m.ended, m.endHasTS, m.endTS = true, op.HasTS, op.TS
 	default:
 		panic("harness bug: unknown op " + op.Op)
@@ -343,10 +420,12 @@ func newModel(c Case, v variant) *model {
 	}
 	m.attrs.set(vk.ToAttrs(first), c.Limits.ValueLen, &m.st)
 	m.attrs.set(vk.ToAttrs(second), c.Limits.ValueLen, &m.st)
-	for _, op := range c.Ops {
-		m.apply(op, v)
-		if again, ok := againOp(op); ok {
-			m.apply(again, v)
+	for _, rop := range c.Ops {
+		for _, op := range expand(rop) {
+			m.apply(op, v)
+			if again, ok := againOp(op); ok {
+				m.apply(again, v)
+			}
 		}
 	}
 	if !m.ended {
@@ -374,6 +453,25 @@ func variants(c Case) []variant {
 		for _, s := range sampler {
 			out = append(out, variant{startInvalidLinksKept: l, samplerAttrsFirst: s})
 		}
+	}
+	return out
+}
+
+// expand spells a burst out: the calls the caller makes for one op of the
+// case. Repetition j > 0 of an event / error carries "#j" in its name /
+// message so that the position of every call in the FIFO stays observable.
+func expand(op Op) []Op {
+	if op.Rep <= 0 {
+		return []Op{op}
+	}
+	out := make([]Op, 0, op.Rep+1)
+	for j := 0; j <= op.Rep; j++ {
+		e := op
+		e.Rep = 0
+		if j > 0 && (op.Op == "event" || op.Op == "error") {
+			e.Text = op.Text + vk.Str(fmt.Sprintf("#%d", j))
+		}
+		out = append(out, e)
 	}
 	return out
 }
